@@ -341,6 +341,10 @@ func RunC20(ctx *core.Ctx) *core.Violation {
 	}
 	sr := sched.Run(t, bodies)
 	sched.SetInnerPeriods(nil)
+	if sr.Hang != "" {
+		// (the task is still spinning: this process is spoilt, the driver leaves it at once)
+		return &core.Violation{Class: "C20/hang", Facts: "in=" + shortFnName(sr.HangIn), Msg: "the call never returns: " + sr.Hang}
+	}
 	if sr.Stuck != "" {
 		panic("harness: scheduler watchdog: " + sr.Stuck)
 	}
@@ -438,6 +442,13 @@ func RunC20(ctx *core.Ctx) *core.Violation {
 		}
 	}
 	return nil
+}
+
+func shortFnName(fn string) string {
+	if i := strings.LastIndex(fn, "/"); i >= 0 {
+		return fn[i+1:]
+	}
+	return fn
 }
 
 func lastLine(b []byte) []byte {
